@@ -17,6 +17,7 @@ import (
 	"github.com/AdguardTeam/AdGuardHome/internal/schedule"
 	"github.com/AdguardTeam/AdGuardHome/internal/verifkit"
 	"github.com/miekg/dns"
+	"gopkg.in/yaml.v3"
 )
 
 // c18USched is one body of PUT /control/blocked_services/update together with
@@ -31,10 +32,40 @@ type c18USched struct {
 // around now, so that the real clock cannot make the expectation wrong.
 func c18UMake(kind int, now time.Time, ids []string) (s c18USched, ok bool) {
 	days := [7]string{"sun", "mon", "tue", "wed", "thu", "fri", "sat"}
-	ut := now.UTC()
+	// The schedules are written in a fixed-offset zone in which it is around
+	// midday now, so that windows of hours around the current instant fit into
+	// the current local day whatever the real time of the run is.
+	etc := func(off int) string {
+		switch {
+		case off == 0:
+			return "UTC"
+		case off > 0:
+			return fmt.Sprintf("Etc/GMT-%d", off)
+		default:
+			return fmt.Sprintf("Etc/GMT+%d", -off)
+		}
+	}
+	utcMin := now.UTC().Hour()*60 + now.UTC().Minute()
+	base, best := 0, 1<<30
+	for off := -12; off <= 14; off++ {
+		local := ((utcMin+60*off)%1440 + 1440) % 1440
+		if d := local - 720; d*d < best {
+			base, best = off, d*d
+		}
+	}
+	far := base - 12
+	if far < -12 {
+		far = base + 12
+	}
+	baseZone, farZone := etc(base), etc(far)
+	loc, lerr := time.LoadLocation(baseZone)
+	if lerr != nil {
+		return s, false
+	}
+	ut := now.In(loc)
 	wd := int(ut.Weekday())
 	minOfDay := ut.Hour()*60 + ut.Minute()
-	sch := map[string]any{"time_zone": "UTC"}
+	sch := map[string]any{"time_zone": baseZone}
 	full := map[string]any{"start": 0, "end": 86400000}
 	switch kind {
 	case 0:
@@ -65,6 +96,15 @@ func c18UMake(kind int, now time.Time, ids []string) (s c18USched, ok bool) {
 			sch[days[wd]] = map[string]any{"start": int64(minOfDay-300) * 60000, "end": int64(minOfDay-240) * 60000}
 		}
 		s.Paused = false
+	case 6:
+		// The ranges of the window around now (UTC reckoning) in a zone twelve
+		// hours away: the same day ranges, another time zone, not pausing.
+		if minOfDay < 200 || minOfDay > 1240 {
+			return s, false
+		}
+		s.Kind, s.Paused = "window-ranges-in-zone-12h-away", false
+		sch["time_zone"] = farZone
+		sch[days[wd]] = map[string]any{"start": int64(minOfDay-180) * 60000, "end": int64(minOfDay+180) * 60000}
 	default:
 		// No schedule key at all.
 		s.Kind, s.Paused = "no-schedule", false
@@ -94,9 +134,28 @@ func TestVerifC18Updates(t *testing.T) {
 	updatesPerRound := verifkit.Pick(150, 400)
 	addr := netip.MustParseAddr("10.0.0.99")
 	for round := 0; round < rounds; round++ {
+		// As at start-up: the configuration file is decoded over defaults that
+		// hold schedule.EmptyWeekly().  In some rounds the file has a schedule
+		// that pauses all week; the first update then replaces it.
+		startBS := &BlockedServices{Schedule: schedule.EmptyWeekly(), IDs: []string{"youtube"}}
+		if round%2 == 1 {
+			doc := "ids: [youtube]\nschedule:\n  time_zone: UTC\n"
+			for _, dn := range []string{"sun", "mon", "tue", "wed", "thu", "fri", "sat"} {
+				doc += "  " + dn + ": {start: 0s, end: 24h}\n"
+			}
+			if yerr := yaml.Unmarshal([]byte(doc), startBS); yerr != nil {
+				rep.Inconcl("decoding the start-up schedule: " + yerr.Error())
+
+				return
+			}
+			rep.Class("rounds_started_from_a_file_with_an_all-week_pause")
+			if schedule.EmptyWeekly().Contains(time.Now()) {
+				rep.Violate("updates:empty-schedule-not-empty-after-config-load", "after a configuration with a pause schedule was decoded over the defaults, schedule.EmptyWeekly() contains the current instant", map[string]any{"start_up_document": doc})
+			}
+		}
 		d, err := New(&Config{
 			DataDir: t.TempDir(), ProtectionEnabled: true, FilteringEnabled: true, BlockingMode: BlockingModeDefault,
-			BlockedServices: &BlockedServices{Schedule: schedule.EmptyWeekly(), IDs: []string{"youtube"}},
+			BlockedServices: startBS,
 			ConfigModified:  func() {},
 			ApplyClientFiltering: func(_ string, _ netip.Addr, _ *Settings) {},
 		}, nil)
@@ -129,8 +188,23 @@ func TestVerifC18Updates(t *testing.T) {
 			}()
 		}
 		prevPaused := false
+		lastKind := -1
 		for u := 0; u < updatesPerRound; u++ {
-			s, ok := c18UMake(rng.Intn(6), time.Now(), []string{"youtube"})
+			kind := rng.Intn(8)
+			if kind == 7 {
+				kind = 5
+			}
+			if lastKind == 3 && rng.Intn(2) == 0 {
+				// Only the time zone changes with respect to the previous
+				// update.
+				kind = 6
+			} else if lastKind == 6 && rng.Intn(2) == 0 {
+				kind = 3
+			}
+			s, ok := c18UMake(kind, time.Now(), []string{"youtube"})
+			if ok {
+				lastKind = kind
+			}
 			if !ok {
 				continue
 			}
